@@ -39,6 +39,26 @@ func ParseProps(s string) Props {
 type State struct {
 	M, R, W, P, PC uint64
 	Core           []g.Instruction
+	// Mode is the simulator mode; the zero value stands for ICWS94 (the
+	// default of every space), 1 for ICWS88, 2 for NOP94.
+	Mode int
+}
+
+func (s *State) simMode() g.SimulatorMode {
+	switch s.Mode {
+	case 1:
+		return g.ICWS88
+	case 2:
+		return g.NOP94
+	}
+	return g.ICWS94
+}
+
+func (s *State) modePrefix() string {
+	if s.Mode == 0 {
+		return ""
+	}
+	return fmt.Sprintf("mode=%d ", s.Mode)
 }
 
 func (s *State) String() string {
@@ -50,14 +70,20 @@ func (s *State) String() string {
 				parts = append(parts, fmt.Sprintf("%d:%s", i, hx.InsStr(x)))
 			}
 		}
-		return fmt.Sprintf("M=%d R=%d W=%d P=%d PC=%d core=@{%s}", s.M, s.R, s.W, s.P, s.PC, strings.Join(parts, ";"))
+		return s.modePrefix() + fmt.Sprintf("M=%d R=%d W=%d P=%d PC=%d core=@{%s}", s.M, s.R, s.W, s.P, s.PC, strings.Join(parts, ";"))
 	}
-	return fmt.Sprintf("M=%d R=%d W=%d P=%d PC=%d core=%s", s.M, s.R, s.W, s.P, s.PC, hx.CoreStr(s.Core))
+	return s.modePrefix() + fmt.Sprintf("M=%d R=%d W=%d P=%d PC=%d core=%s", s.M, s.R, s.W, s.P, s.PC, hx.CoreStr(s.Core))
 }
 
 // ParseState parses the String format.
 func ParseState(w string) (*State, error) {
 	st := &State{}
+	if strings.HasPrefix(w, "mode=") {
+		if _, err := fmt.Sscanf(w, "mode=%d", &st.Mode); err != nil {
+			return nil, err
+		}
+		w = w[strings.Index(w, " ")+1:]
+	}
 	i := strings.Index(w, "core=")
 	if i < 0 {
 		return nil, fmt.Errorf("no core in %q", w)
@@ -128,7 +154,7 @@ func Exec(st *State, listen bool) (o Obs) {
 			o.Panic = fmt.Sprint(r)
 		}
 	}()
-	cfg := g.SimulatorConfig{Mode: g.ICWS94, CoreSize: g.Address(st.M), Processes: g.Address(st.P), Cycles: 4,
+	cfg := g.SimulatorConfig{Mode: st.simMode(), CoreSize: g.Address(st.M), Processes: g.Address(st.P), Cycles: 4,
 		ReadLimit: g.Address(st.R), WriteLimit: g.Address(st.W), Length: g.Address(st.M), Distance: 0}
 	sim, err := g.NewReportingSimulator(cfg)
 	if err != nil {
